@@ -78,6 +78,13 @@ class Gen:
         if r < 0.5:
             # function
             name = 'f%d' % uid
+            if visible and rng.random() < 0.12:
+                # a redefinition: the name of an earlier function of the same scope is bound again (the later
+                # definition is the one that exists after import; static collection must report that one, once)
+                prefix = (cls + '.') if cls else ''
+                cands = [e[0][len(prefix):] for e in self.expected if e[0].startswith(prefix + 'f') and '.' not in e[0][len(prefix):]]
+                if cands:
+                    name = rng.choice(cands)
             is_async = rng.random() < 0.2
             deco = rng.choice([None, None, None, '@staticmethod', '@classmethod', '@property', '@deco', '@deco_call(1)', '@prev.setter', '@prev.deleter']) if cls else \
                 rng.choice([None, None, None, '@deco', '@deco_call(1)', '@mod.attr', '@prev.setter'])
